@@ -40,6 +40,7 @@ func props() map[string]Prop {
 			ID: "C03", Level: "exploration",
 			Units: []Unit{
 				{Name: "sched", Pkg: "internal/counter", Harness: "internal_counter", Run: "^TestVerifC03$", Instrument: counterInstr, Timeout: 40 * time.Minute},
+				{Name: "race", Pkg: "internal/counter", Harness: "internal_counter", Run: "^TestVerifC03Race$", Instrument: counterInstr, Race: true, Timeout: 40 * time.Minute},
 			},
 			Assume: []string{
 				"interleavings are explored at the granularity of the instrumented scheduling points (every atomic operation, lock acquisition, Once.Do and fs call in internal/counter and internal/mmap); sequential consistency between points",
@@ -50,6 +51,7 @@ func props() map[string]Prop {
 			ID: "C04", Level: "exploration",
 			Units: []Unit{
 				{Name: "sched", Pkg: "internal/counter", Harness: "internal_counter", Run: "^TestVerifC04$", Instrument: counterInstr, Timeout: 40 * time.Minute},
+				{Name: "procs", Pkg: "internal/counter", Harness: "internal_counter", Run: "^TestVerifC04Procs$", Instrument: counterInstr, Timeout: 40 * time.Minute},
 			},
 			Assume: []string{
 				"a process is emulated by an independent file value (own fd and MAP_SHARED mapping) driven by one virtual thread in the test process; kill = the thread is never scheduled again",
@@ -98,6 +100,7 @@ func props() map[string]Prop {
 			Units: []Unit{
 				{Name: "seq", Pkg: "internal/upload", Harness: "internal_upload", Run: "^TestVerifUploadSeq$", Instrument: uploadInstr, Timeout: 30 * time.Minute},
 				{Name: "mode", Pkg: "internal/upload", Harness: "internal_upload", Run: "^TestVerifC02Mode$", Instrument: uploadInstr, Timeout: 30 * time.Minute},
+				{Name: "public", Pkg: "counter", Harness: "counter_public", Run: "^TestVerifPublic$", Timeout: 30 * time.Minute},
 			},
 			Assume: []string{"start times are passed explicitly (virtual calendar 2019-2031)"},
 		},
@@ -115,6 +118,7 @@ func props() map[string]Prop {
 			ID: "C05", Level: "fault_enumeration",
 			Units: []Unit{
 				{Name: "counter", Pkg: "internal/counter", Harness: "internal_counter", Run: "^TestVerifC05", Instrument: append(append([]string{}, counterInstr...), "internal/telemetry"), Timeout: 40 * time.Minute},
+				{Name: "public", Pkg: "counter", Harness: "counter_public", Run: "^TestVerifPublic$", Timeout: 30 * time.Minute},
 				{Name: "uploader", Pkg: "internal/upload", Harness: "internal_upload", Run: "^TestVerifC05Upload$", Instrument: append(append([]string{}, uploadInstr...), "internal/counter"), Timeout: 30 * time.Minute},
 			},
 			Assume: []string{
